@@ -151,17 +151,21 @@ impl Scope for RtScope {
             if max_keys != Some(1) {
                 *self.list_counts.entry(vol).or_insert(0) += 1;
             }
-            let mut objs: Vec<Obj> = self
-                .visible_in(vol)
-                .iter()
-                .map(|c| Obj {
-                    key: format!("{}/{}/{}", self.plan.site, c.vol, c.name),
-                    last_modified: s3sim::rfc3339(c.upload_s * 1000, c.seq % 2 == 0),
-                    size: c.bytes.len().to_string(),
-                })
-                .collect();
-            if objs.is_empty() {
-                if let Some(o) = self.old_dirs.get(&vol) {
+            // plain string-prefix semantics over every object visible right now, in key order
+            let mut vols: Vec<usize> = self.chunks.keys().map(|k| k.0).collect();
+            vols.dedup();
+            let mut objs: Vec<Obj> = Vec::new();
+            for v in vols {
+                for c in self.visible_in(v) {
+                    objs.push(Obj {
+                        key: format!("{}/{}/{}", self.plan.site, c.vol, c.name),
+                        last_modified: s3sim::rfc3339(c.upload_s * 1000, c.seq % 2 == 0),
+                        size: c.bytes.len().to_string(),
+                    });
+                }
+            }
+            for (v, o) in &self.old_dirs {
+                if !objs.iter().any(|x| x.key.starts_with(&format!("{}/{}/", self.plan.site, v))) {
                     objs.push(o.clone());
                 }
             }
@@ -330,7 +334,8 @@ pub fn gen_scenario(rng: &mut Rng, index: u64) -> (Plan, BTreeMap<(usize, usize)
     let mut t = base_s;
     let mut uniq = index << 20;
     let mut add = |rng: &mut Rng, vol: usize, seq: usize, pidx: Option<usize>, chunks: &mut BTreeMap<(usize, usize), ChunkObj>| {
-        t += rng.range(3, 12) as i64;
+        // S3 timestamps have one-second granularity: consecutive chunks may share one
+        t += *rng.pick(&[0i64, 0, 1, 4, 7, 9, 12]);
         uniq += 1;
         let never = pidx.is_some() && pidx == never_index;
         let nfail = if rng.chance(1, 2) { 0 } else { rng.urange(0, 4) };
